@@ -1,5 +1,7 @@
 import Cardutil.Lemmas.Vbs
 import Cardutil.Props.C03
+import Cardutil.Props.C01
+import Cardutil.Props.C02
 /-
   C06 — IPM file round trip: messages written are the messages read back.
 
@@ -104,5 +106,87 @@ theorem C06_states_independent {σ τ} (f : σ → σ) (s : σ) (t : τ) : (f s,
 -- sanity test (evaluated): record lengths read back through a blocked file
 #guard ipmRead (fun r => (.ok r.length : Outcome Nat)) 6000 true (Writer.listToBytes 1012 true [[1, 2, 3], [4]]) ==
   ([3, 1], .eof)
+
+/-! ### the ISO8583 instance: C01 supplies the per-message round trip -/
+
+open Cardutil.Iso Cardutil.Py Cardutil.Digits in
+/-- a message the property speaks of: 4-digit MTI, no PDS keys, present elements well formed -/
+def MsgOK (env : Env) (cfg : Config) (m : Dict) : Prop :=
+  ∃ ds : List Nat, (∀ d ∈ ds, d < 10) ∧ ds.length = 4 ∧ Dict.get m .mti = some (.str (digitText ds)) ∧
+    pdsEntriesOf m = [] ∧ ElemsWF env cfg m allBits
+
+open Cardutil.Iso Cardutil.Py Cardutil.Digits in
+/-- C06 at full strength for the ISO8583 codec: ANY list of well-formed messages (C01's domain)
+    whose encodings are within the maximum record length, written by `IpmWriter` and read back by
+    `IpmReader` with the same encoding, blocking and configuration, is returned as the same number
+    of dictionaries, in the same order, each with the MTI and every present element of its message
+    (C01's expected value) — VBS or 1014, any number of records and blocks -/
+theorem C06_messages {env : Env} (henv : EnvOK env) (cfg : Config) (maxLen : Nat) (hmax : maxLen < 4294967296)
+    (blocked : Bool) (msgs : List Dict)
+    (hm : ∀ m ∈ msgs, MsgOK env cfg m)
+    (hlen : ∀ m ∈ msgs, ∀ b, encode env cfg false m = .ok b → b.length ≤ maxLen) :
+    ∃ file ds, ipmWrite (encode env cfg false) blocked msgs = .ok file ∧
+      ipmRead (decode env cfg false) maxLen blocked file = (ds, .eof) ∧
+      ds.length = msgs.length ∧
+      ∀ i (h1 : i < msgs.length) (h2 : i < ds.length),
+        Dict.get ds[i] .mti = Dict.get msgs[i] .mti ∧
+        ∀ bit ∈ allBits, ∀ v, Dict.get msgs[i] (.de bit) = some v → present v = true →
+          ∃ f exp sub, cfg.get bit = some f ∧ WFField env bit f v exp sub ∧
+            Dict.get ds[i] (.de bit) = some exp := by
+  let recOf : Dict → Bytes := fun m => match encode env cfg false m with | .ok b => b | _ => []
+  let expected : Dict → Dict := fun m => match decode env cfg false (recOf m) with | .ok d => d | _ => []
+  have hper : ∀ m ∈ msgs, encode env cfg false m = .ok (recOf m) ∧ 0 < (recOf m).length ∧
+      decode env cfg false (recOf m) = .ok (expected m) ∧
+      Dict.get (expected m) .mti = Dict.get m .mti ∧
+      ∀ bit ∈ allBits, ∀ v, Dict.get m (.de bit) = some v → present v = true →
+        ∃ f exp sub, cfg.get bit = some f ∧ WFField env bit f v exp sub ∧
+          Dict.get (expected m) (.de bit) = some exp := by
+    intro m hmm
+    obtain ⟨ds, hds, hl, hmti, hnopds, hwf⟩ := hm m hmm
+    obtain ⟨bs, d, h1, h2, h3, h4, _⟩ := C01.C01_roundtrip henv cfg false m ds hds hl hmti hnopds hwf
+    have hr : recOf m = bs := by simp only [recOf, h1]
+    have he : expected m = d := by simp only [expected, hr, h2]
+    have hpos : 0 < bs.length := by
+      have h1' := h1
+      rw [C01.encode_no_pds _ _ _ _ hnopds] at h1'
+      obtain ⟨mti, pres, data, _, _, hbs, _⟩ := C02.C02_message_layout env cfg false m bs h1'
+      have hbl : (bytesOfBits (flagsOf pres)).length = 16 := bitmapOf_length pres
+      rw [hbs]
+      simp only [Bool.false_eq_true, if_false, List.length_append, hbl]
+      omega
+    rw [hr, he]
+    exact ⟨h1, hpos, h2, by rw [h3, hmti], h4⟩
+  obtain ⟨file, hw, hrd⟩ := C06_file_roundtrip (encode env cfg false) (decode env cfg false) expected recOf
+    maxLen hmax blocked msgs
+    (fun m hmm => ⟨(hper m hmm).1, (hper m hmm).2.1, hlen m hmm _ (hper m hmm).1⟩)
+    (fun m hmm => (hper m hmm).2.2.1)
+  refine ⟨file, msgs.map expected, hw, hrd, by simp, ?_⟩
+  intro i h1 h2
+  have hmem : msgs[i] ∈ msgs := List.getElem_mem h1
+  rw [List.getElem_map]
+  exact ⟨(hper _ hmem).2.2.2.1, (hper _ hmem).2.2.2.2⟩
+
+open Cardutil.Iso in
+/-- non-vacuity of `C06_messages`: two copies of C01's sample message under cp500 and the packaged
+    configuration meet every hypothesis (the encoding is 42 bytes, evaluated by the kernel) -/
+example : let env := C01.envOf Gen.cp500 (fun _ => none)
+    (∀ m ∈ [C01.sampleMsg, C01.sampleMsg], MsgOK env Gen.bitConfig m) ∧
+    (∀ m ∈ [C01.sampleMsg, C01.sampleMsg], ∀ b, encode env Gen.bitConfig false m = .ok b → b.length ≤ 6000) := by
+  intro env
+  have henc : encode env Gen.bitConfig false C01.sampleMsg =
+      .ok ([241,241,244,244] ++ [208,0,0,0,0,0,0,0,0,0,0,0,0,0,0,0] ++ [240,248,244,244,244,244,245,245,245,245] ++
+        [240,240,240,240,240,240,240,240,240,240,241,242]) := by decide +kernel
+  refine ⟨?_, ?_⟩
+  · intro m hm
+    have : m = C01.sampleMsg := by simpa using hm
+    subst this
+    exact ⟨[1,1,4,4], by decide, rfl, rfl, rfl, C01.sample_wf _ _ (Or.inr (Or.inl rfl)) _ rfl rfl⟩
+  · intro m hm b h
+    have : m = C01.sampleMsg := by simpa using hm
+    subst this
+    rw [henc] at h
+    injection h with e
+    subst e
+    decide
 
 end Cardutil.Props.C06
